@@ -56,6 +56,11 @@ public:
 
     static UIntDict mul(const UIntDict &a, const UIntDict &b)
     {
+        // the zero polynomial has no coefficients to take the maximum of
+        if (a.dict_.empty())
+            return a;
+        if (b.dict_.empty())
+            return b;
         int mul = 1;
 
         // one more bit than the largest coefficient of the product needs:
